@@ -634,7 +634,12 @@ impl Writer {
             .readers
             .iter()
             .filter_map(|(guid, rp)| {
-              if rp.qos().is_reliable() && rp.all_acked_before <= wait_until {
+              // Sequence numbers start from 1, so a reader that has not acknowledged
+              // anything yet (all_acked_before == 0) is not behind if nothing has
+              // been written yet either.
+              if rp.qos().is_reliable()
+                && max(rp.all_acked_before, SequenceNumber::from(1)) <= wait_until
+              {
                 Some(*guid)
               } else {
                 None
